@@ -32,6 +32,9 @@ let handle_q (f : string array) (o : string array) =
        compare_renders "" input e o 3;
        (* JSON round trip through the model's decoder, on the implementation's own bytes *)
        if o.(18) <> "-" then begin
+         (* the syntax tree of the encoder's bytes is the one the specification predicts from the tree (Spec/Cst.v) *)
+         bump "corr.EncoderCst";
+         if parse_cst o.(18) <> cst_e orc2 e then record_mismatch "EncoderCst" (input @ [("json", (match xtext o.(7) with Some t -> t | None -> ""))]);
          let d = decode orc (parse_cst o.(18)) in
          let dm = match d with DOk x -> show_expr x | DErr -> "ERR" | DPanic _ -> "PANIC" in
          bump "corr.Decode";
